@@ -144,6 +144,14 @@ CLAIMED = {
         'failing data-source positions are read through a pipeline with 0-2 threads.',
         'assign is exercised with batch sizes equal to the input batch size only (pairing is undefined otherwise); skippable = ValueError/TypeError.',
         '5/C12'),
+    'C02': (
+        'TLA+ spec Slicing.tla (aggregation with slicing defined as a group-by; algebra checked by TLC over every stream / slicer set / aggregate stacking of the bound); every configuration run on the real TreeTransform and the whole result dict compared key by key',
+        'TLC checks that partitioning slicers put every row in exactly one slice, slice rows are an ordered sub-sequence of all rows, slice sizes add up and the unsliced entry exists and never depends on the slicers, for '
+        'streams of <=2 batches x <=2 rows, <=2 of 8 slicer kinds (single feature, cross, restricted values, fan-out function, mask function, mask-with-replace), one or two stacked aggregates, slicing disabled on one. '
+        'Each configuration (exhaustive small universe plus simulated ones with 3 batches x 3 rows x 3 slicers) is executed with list and numpy batches: exactly the expected keys (none invented, none dropped) '
+        'and, under each key, exactly the rows of that slice in order.',
+        'Aggregates collect the rows they are fed; rows are (a, b) pairs of small ints.',
+        '5/C02'),
 }
 
 PENDING = {}
